@@ -6,7 +6,9 @@ import hashlib
 
 from . import common
 
-TAGS = ['accepted', 't1', 't12', 'acc']       # tag 0 is 'accepted' (Model/Features.lean); prefixes on purpose
+# tag 0 is 'accepted' (Model/Features.lean); prefixes on purpose; and names that collide (as is_<tag>) with
+# attributes a State has or may gain: is_final, is_name, is_value, is_timeout
+TAGS = ['accepted', 't1', 't12', 'acc', 'final', 'name', 'value', 'timeout']
 HOOKS = ['scope', 'h1', 'h2']                 # hook 0 is the default 'scope'
 MIXINS = ['Tags', 'Error', 'Volatile', 'Retry']
 CLASSES = ['Machine', 'LockedMachine', 'HierarchicalMachine', 'LockedHierarchicalMachine']
@@ -70,7 +72,10 @@ def is_edit(h):
 
 
 def is_trigger(h):
-    """history steps: [m, ev] / [m, ev, j] trigger (j: index of the on_exit callback that raises);
+    """history steps: [m, ev] trigger; [m, ev, j] with an on_exit callback (index j) raising; [m, ev, ['e', j]]
+    with an on_enter callback raising; [m, ev, ['r', n]] with the entered state's last on_enter callback firing
+    the state's own reflexive event again (at most n times, unqueued machine); ev = 'to:<state>' is
+    model.to(<state>) on hierarchical machines;
     ['T', state, mode, tags] edit of the public tags list; ['P', m, ev, how] may_ poll;
     ['G', state] machine.get_triggers(state); ['R', state, which] machine.on_<which>_<state>(callback)"""
     return isinstance(h[0], int)
@@ -93,6 +98,8 @@ def normalise(d):
             return h[2] in known and h[1] < d['nmodels']
         if h[0] in ('G', 'R'):
             return h[1] in names
+        if h[1].startswith('to:'):
+            return is_nested(d['cls']) and h[1][3:] in names
         return h[1] in known
     d = dict(d)
     d.setdefault('local', [])
@@ -207,6 +214,10 @@ def gen(rng, cls=None, probe=None, featureless=False):
                 for n in range(rng.randint(1, 2)):
                     src = rng.choice(kids)
                     d['local'].append([t, 'l%d' % n, src, src if rng.random() < 0.7 else rng.choice(kids)])
+    if not featureless:
+        for s in states:
+            if rng.random() < 0.25:
+                s['final'] = rng.random() < 0.8
     if featureless:
         # the conventions of the undecorated class that decoration has to keep: final states and on_final
         # callbacks, model methods on_enter_/on_exit_/on_final_<state>, machine.on_<callback>_<state>(f)
@@ -321,9 +332,22 @@ def gen(rng, cls=None, probe=None, featureless=False):
     def one(m, ev):
         if featureless and rng.random() < 0.12:
             hist.append(['R', rng.choice(names), rng.choice(['enter', 'exit', 'final', 'final'])])
-        if rng.random() < 0.12:
+        r = rng.random()
+        reflexive = [t for t in tr if t[1] == t[2] and t[1] == cur[m] and by[cur[m]].get('retries')]
+        if r < 0.10:
             # an on_exit callback of the state being left raises (index of the raising callback)
             hist.append([m, ev, rng.randint(0, 1)])
+        elif r < 0.20:
+            # an on_enter callback of the state being entered raises; the caller carries on (retries)
+            hist.append([m, ev, ['e', rng.randint(0, 1)]])
+            advance(m, ev)
+        elif r < 0.30 and d['probe'] and not nested and reflexive:
+            # the state's own enter callback fires the reflexive event again (unqueued: nested processing)
+            hist.append([m, reflexive[0][0], ['r', rng.randint(2, 6)]])
+        elif r < 0.38 and nested:
+            name = rng.choice(names)
+            hist.append([m, 'to:' + name])
+            cur[m] = descend(name)
         else:
             hist.append([m, ev])
             advance(m, ev)
@@ -390,12 +414,18 @@ class Veto(Exception):
     """raised by an on_exit recorder when the harness armed the model's veto"""
 
 
+class EnterVeto(Exception):
+    """raised by an on_enter recorder when the harness armed it"""
+
+
 class ModelObj(object):
     def __init__(self, idx, log, names):
         self._idx = idx
         self._log = log
         self._names = names
         self._veto = None       # index of the on_exit callback that raises during the next exit
+        self._eveto = None      # index of the on_enter callback that raises during the next entry
+        self._reenter = None    # [event, budget, state index]: re-entrant self re-entries from the enter callback
 
     def __getattr__(self, name):
         # on_failure given as the *name* of a model method: `failcb<state index>`
@@ -422,7 +452,15 @@ def make_recorder(log, models, kind, s, j, last=0):
             m._veto = None
             log.items.append(('exitRaise', s, m._idx, j, log.snap(m)))
             raise Veto()
+        if kind == 'enterCb' and m._eveto is not None and j >= min(m._eveto, last):
+            m._eveto = None
+            log.items.append(('enterRaise', s, m._idx, j, log.snap(m)))
+            raise EnterVeto()
         log.items.append((kind, s, m._idx, j, log.snap(m)))
+        if kind == 'enterCb' and j == last and m._reenter and m._reenter[1] > 0 and m._reenter[2] == s:
+            # re-entrant: the state's own enter callback fires its reflexive event again
+            m._reenter[1] -= 1
+            m.trigger(m._reenter[0], m._idx)
     return rec
 
 
@@ -477,7 +515,7 @@ def realise(d):
     def sdef(s):
         i = idx[s['name']]
         o = {'name': s['name'].split(SEP)[-1],
-             'on_enter': [make_recorder(log, models, 'enterCb', i, j) for j in range(s['n_enter'])],
+             'on_enter': [make_recorder(log, models, 'enterCb', i, j, s['n_enter'] - 1) for j in range(s['n_enter'])],
              'on_exit': [make_recorder(log, models, 'exitCb', i, j, s['n_exit'] - 1) for j in range(s['n_exit'])]}
         if s.get('final'):
             o['final'] = True
@@ -564,13 +602,23 @@ def execute(d):
         return r
     idx = sidx(d)
     r.tags = read_tags(d, machine)
+    # what a state of the undecorated class answers (normally: no such attribute)
+    r.plain_tags = {}
+    for fin in (False, True):
+        plain = type(machine).__mro__[1].state_cls(name='plain', final=fin)
+        for t in TAGS:
+            try:
+                r.plain_tags[(fin, t)] = getattr(plain, 'is_' + t)
+            except AttributeError:
+                r.plain_tags[(fin, t)] = 'AttributeError'
 
     def post():
         return [(idx.get(m.state, -1), log.snap(m)) for m in models]
     r.initial_post = post()
 
     def kind_of(e):
-        return 'ME' if isinstance(e, MachineError) else 'veto' if isinstance(e, Veto) else 'exc:' + type(e).__name__
+        return 'ME' if isinstance(e, MachineError) else 'veto' if isinstance(e, Veto) else \
+            'eveto' if isinstance(e, EnterVeto) else 'exc:' + type(e).__name__
     for h in d['history']:
         del log.items[:]
         del log.handled[:]
@@ -607,21 +655,34 @@ def execute(d):
                 break
             continue
         mi, ev = h[0], h[1]
-        models[mi]._veto = h[2] if len(h) > 2 else None
+        arm = h[2] if len(h) > 2 else None
+        models[mi]._veto = arm if isinstance(arm, int) else None
+        models[mi]._eveto = arm[1] if isinstance(arm, list) and arm[0] == 'e' else None
+        models[mi]._reenter = None
+        if isinstance(arm, list) and arm[0] == 'r':
+            # only a true reflexive transition of the state the model is in is fired again
+            cur = models[mi].state
+            if any(e == ev and sr == cur and de == cur for e, sr, de in expanded_transitions(d)):
+                models[mi]._reenter = [ev, arm[1], idx[cur]]
         res = 'raised'
         try:
-            res = models[mi].trigger(ev, mi)
+            if ev.startswith('to:'):
+                models[mi].to(ev[3:], mi)       # to_state returns nothing
+                res = True
+            else:
+                res = models[mi].trigger(ev, mi)
             result = 'true' if res is True else ('false' if res is False else 'other:%r' % (res,))
         except Exception as e:      # MachineError and the harness's Veto are expected; anything else is not
             result = kind_of(e)
-        models[mi]._veto = None
+        models[mi]._veto = models[mi]._eveto = models[mi]._reenter = None
         handled = False
         if log.handled:
             # the machine's on_exception handler took the exception (the trigger then returns a falsy value):
             # a Veto when an on_exit recorder raised, else the MachineError of an invalid trigger / Error state
             handled = True
             vetoed = any(it[0] == 'exitRaise' for it in log.items)
-            result = ('veto' if vetoed else 'ME') if (len(log.handled) == 1 and not res) else \
+            evetoed = any(it[0] == 'enterRaise' for it in log.items)
+            result = ('veto' if vetoed else 'eveto' if evetoed else 'ME') if (len(log.handled) == 1 and not res) else \
                 'exc:handler(%d,%s)' % (len(log.handled), result)
         r.steps.append({'items': [it for it in log.items if it[0] not in AUX], 'all': list(log.items),
                         'result': result, 'handled': handled, 'post': post()})
@@ -714,13 +775,16 @@ def groups_of(d, run):
     pre = [s for s, _h in run.initial_post]
     for st in run.steps:
         g = []
-        raised = set((it[1], it[2]) for it in st['items'] if it[0] == 'exitRaise')
         for it in st['items']:
             if it[0] == 'op_enter':
                 src = resolve_source(d, it[3], names[pre[it[2]]] if 0 <= pre[it[2]] < unknown else None)
                 g.append((0, it[1], it[2], idx.get(src, unknown)))
             elif it[0] == 'op_exit':
-                g.append((2 if (it[1], it[2]) in raised else 1, it[1], it[2], 0))
+                g.append((1, it[1], it[2], 0))
+            elif it[0] == 'exitRaise' and g and g[-1][0] == 1:
+                g[-1] = (2,) + g[-1][1:]
+            elif it[0] == 'enterRaise' and g and g[-1][0] == 0:
+                g[-1] = (3,) + g[-1][1:]
         gs.append(g)
         pre = [s for s, _h in st['post']]
     return gs
@@ -770,7 +834,9 @@ def enc_flat(d):
         elif h[0] == 'P':
             steps.append([2, h[1], eid[h[2]]])
         elif is_trigger(h):
-            steps.append([0, h[0], eid[h[1]], 1 if len(h) > 2 else 0])
+            arm = h[2] if len(h) > 2 else None
+            steps.append([0, h[0], eid[h[1]], 1 if isinstance(arm, int) else 0,
+                          1 if isinstance(arm, list) and arm[0] == 'e' else 0])
     o += [1 if d['ignore'] else 0, d['nmodels'], idx[d['initial']], len(steps)]
     for st in steps:
         o += st
@@ -784,8 +850,8 @@ def _dec_log(nums, pos):
     H = len(HOOKS)
     for _ in range(n):
         k = nums[pos]
-        if k in (0, 1, 2, 5):
-            items.append(({0: 'enterCbs', 1: 'exitCbs', 2: 'failure', 5: 'exitAbort'}[k], nums[pos + 1], nums[pos + 2],
+        if k in (0, 1, 2, 5, 6):
+            items.append(({0: 'enterCbs', 1: 'exitCbs', 2: 'failure', 5: 'exitAbort', 6: 'enterAbort'}[k], nums[pos + 1], nums[pos + 2],
                           tuple(x - 1 if x else None for x in nums[pos + 3:pos + 3 + H])))
             pos += 3 + H
         elif k == 3:
@@ -862,7 +928,17 @@ def collapse(d, items):
             out.append(('exitAbort', s, m, snp))
             i += 1
             continue
-        n = d['states'][s]['n_enter' if kind == 'enterCb' else 'n_exit'] if 0 <= s < len(d['states']) else 1
+        n = d['states'][s]['n_enter' if kind in ('enterCb', 'enterRaise') else 'n_exit'] if 0 <= s < len(d['states']) else 1
+        if kind in ('enterCb', 'enterRaise'):
+            # an entry whose k-th callback raises: the callbacks were reached (`enterCbs`), one raised (`enterAbort`)
+            k = next((q for q in range(i, min(i + n, len(its))) if its[q][0] == 'enterRaise'), None)
+            if k is not None and [g[:4] for g in its[i:k + 1]] == \
+                    [('enterCb', s, m, jj) for jj in range(k - i)] + [('enterRaise', s, m, k - i)] \
+                    and all(g[4] == snp for g in its[i:k + 1]):
+                out.append(('enterCbs', s, m, snp))
+                out.append(('enterAbort', s, m, snp))
+                i = k + 1
+                continue
         if kind == 'exitCb':
             # an exit whose k-th callback raises: callbacks 0..k-1, then the raising one
             k = next((q for q in range(i, min(i + n, len(its))) if its[q][0] == 'exitRaise'), None)
@@ -951,7 +1027,7 @@ def compare_flat(d, run, model):
         impl.append({'items': obs, 'post': st['post']})
     ci = canon_steps(impl, True)
     cm = canon_steps(model, True)
-    codes = {0: 'true', 1: 'false', 2: 'ME', 3: 'ME', 4: 'veto', 10: 'may:false', 11: 'may:true'}
+    codes = {0: 'true', 1: 'false', 2: 'ME', 3: 'ME', 4: 'veto', 5: 'eveto', 10: 'may:false', 11: 'may:true'}
     for k, (a, b) in enumerate(zip(ci, cm)):
         n, st, _e = ts[k]
         if a != b or st['result'] != codes[model[k]['code']]:
@@ -969,7 +1045,8 @@ def compare_flat(d, run, model):
 def oracle_tags(d, run):
     """`is_<tag>` is True exactly for the state's tags (+ 'accepted' when accepted=True) — after construction,
     after every trigger and after every edit of a public `tags` list (with Python's aliasing of shared list
-    objects); a machine without Tags/Error has no `is_<tag>` attribute at all (plain State)."""
+    objects); on a machine without Tags/Error a state answers what a state of the undecorated class answers
+    (normally: no such attribute)."""
     fails = []
     tagged = 'Tags' in d['feats'] or 'Error' in d['feats']
     tt = TagTracker(d)
@@ -977,7 +1054,7 @@ def oracle_tags(d, run):
     def check(when, table):
         for i, s in enumerate(d['states']):
             for t in TAGS:
-                want = (t in tt.tags(s['name'])) if tagged else 'AttributeError'
+                want = (t in tt.tags(s['name'])) if tagged else run.plain_tags[(bool(s.get('final')), t)]
                 got = table[i][t]
                 if got != want or (tagged and not isinstance(got, bool)):
                     fails.append(('tags', {'state': s['name'], 'tag': t, 'expected': want, 'got': repr(got),
@@ -1024,8 +1101,12 @@ def outcome_of(d, seg, last, result):
                 [i[:4] for i in its] == want[:len(its) - 1] + [('exitRaise', s, m, len(its) - 1)]:
             return 'aborted'
         return None
-    if [i[:4] for i in its] == [('enterCb', s, m, j) for j in range(sd['n_enter'])]:
+    want = [('enterCb', s, m, j) for j in range(sd['n_enter'])]
+    if [i[:4] for i in its] == want:
         return 'entered'
+    if its and its[-1][0] == 'enterRaise' and last and result == 'eveto' and \
+            [i[:4] for i in its] == want[:len(its) - 1] + [('enterRaise', s, m, len(its) - 1)]:
+        return 'eaborted'
     if len(its) == 1 and its[0][:3] == ('failure', s, m):
         return 'failed'
     if not its and last and result == 'ME':
@@ -1059,7 +1140,7 @@ def oracle_steps(d, run):
                                                              'ran callbacks, moved a model or failed')))
             continue
         armed = len(d['history'][n]) > 2
-        if res not in ('true', 'false', 'ME') and not (res == 'veto' and armed):
+        if res not in ('true', 'false', 'ME') and not (res in ('veto', 'eveto') and armed):
             fails.append(('unexpected-result', dict(where, result=res)))
             break
         segs = segments(d, step)
@@ -1081,6 +1162,8 @@ def oracle_steps(d, run):
             continue
         if res == 'ME' and segs and outs[-1] != 'raised':
             fails.append(('shape', dict(where, problem='MachineError after a completed state change')))
+        if res == 'eveto' and (not segs or outs[-1] != 'eaborted'):
+            fails.append(('shape', dict(where, problem='exception of an enter callback surfaced elsewhere')))
         if res == 'veto' and (not segs or outs[-1] != 'aborted'):
             fails.append(('shape', dict(where, problem='exception of an exit callback surfaced elsewhere')))
         for q, (seg, o) in enumerate(zip(segs, outs)):
@@ -1096,7 +1179,11 @@ def oracle_steps(d, run):
                 # --- Error: MachineError on entry iff no outgoing transition and not accepted
                 tags_now = tt.tags(sd['name'])
                 want_raise = 'Error' in feats and not has_out(d, sd['name']) and 'accepted' not in tags_now
-                if (o == 'raised') != want_raise:
+                # (not judged: model.to(<state>) re-enters a dead end from itself and Retry, placed before Error,
+                #  refuses the entry before Error looks at it — order-dependent, mirrored by the model)
+                cut_short = o == 'failed' and 'Retry' in feats and 'Error' in feats and \
+                    feats.index('Retry') < feats.index('Error')
+                if (o == 'raised') != want_raise and not cut_short:
                     fails.append(('error-iff', dict(w, outcome=o, expected_raise=want_raise,
                                                     has_outgoing=has_out(d, sd['name']), tags=list(tags_now))))
                 # --- Retry
@@ -1111,12 +1198,19 @@ def oracle_steps(d, run):
                         kk += 1
                         k[(s, m)] = kk
                     local[(s, m)] = local.get((s, m), False) or is_local
+                if o == 'raised':
+                    # whether an entry Error rejected was counted depends on the decorator order: the count is
+                    # unknown until the next entry from another state
+                    k[(s, m)] = None
                 if 'Retry' not in feats or r == 0:
                     if o == 'failed':
                         fails.append(('retry-exact', dict(w, outcome=o, retries=r, problem='on_failure without a limit')))
+                elif want_raise:
+                    pass    # a rejecting dead end re-entered through model.to(): which of Error / Retry acts is order-dependent
                 elif kk is not None and kk <= r + 1:
                     want = 'failed' if kk == r + 1 else 'entered'
-                    if o != want and not (o == 'raised' and want == 'entered'):
+                    # (an entry whose enter callback raised is an attempt like any other: it was let in)
+                    if o != want and not (o in ('raised', 'eaborted') and want == 'entered'):
                         fails.append(('retry-exact', dict(w, outcome=o, expected=want, retries=r, self_reentry_no=kk,
                                                           source_as_declared=raw,
                                                           locally_declared=bool(local.get((s, m))))))
